@@ -135,7 +135,15 @@ def child(case):
                     st['signalled_at'] = loop.iter
                     st['events_at_signal'] = len(srv.events)
             try:
-                await srv.task
+                # "the server stops": bounded in virtual time (a clean stop needs a few seconds)
+                await asyncio.wait_for(asyncio.shield(srv.task), 900)
+            except asyncio.TimeoutError:
+                st['does_not_stop'] = True
+                srv.task.cancel()
+                try:
+                    await asyncio.wait_for(srv.task, 60)
+                except BaseException:    # noqa
+                    pass
             except asyncio.CancelledError:
                 pass
             except Exception as e:    # noqa
@@ -162,6 +170,9 @@ def child(case):
         K = loop.iter
         if k is None:
             out['dry'] = {'K': K, 'marks': marks, 'jobs': loop.gex.n}
+        if st.get('does_not_stop'):
+            out['violations'].append({'key': 'shutdown/does-not-stop', 'what': f'Controller.run() had not returned 900 virtual seconds after SIGTERM at '
+                                      f'iteration {k} (jobs alive at the signal: {st["alive_at_signal"]})', 'witness': {'case': case}})
         if st['run_exc']:
             last = st['run_exc'].strip().splitlines()[-1][:200]
             out['violations'].append({'key': 'shutdown/exception-escapes:' + last.split(':')[0].split('.')[-1],
